@@ -4,7 +4,7 @@
 cd /verif
 [ -n "$(git -C /repo status --short)" ] && { echo "/repo working tree is not clean"; exit 3; }
 fail=0
-for d in seeded/*/; do
+for d in /verif/seeded/*/; do
   n=$(basename $d); p=$(python3 -c "import json;print(json.load(open('$d/meta.json'))['breaks_property'])")
   git -C /repo apply $d/patch.diff || { echo "$n: patch does not apply"; fail=1; continue; }
   t0=$(date +%s); out=$(./check $p ${VERIF_TIER:+--tier $VERIF_TIER} 2>&1); code=$?; t1=$(date +%s)
